@@ -71,6 +71,19 @@ fn rsync_uri<const N: usize, const M: usize>(tail: &[u8; N]) -> [u8; M] {
     buf
 }
 
+/// As `rsync_uri`, with the five scheme letters in upper case where the
+/// corresponding bit of `mask` is set (the scheme is case-insensitive).
+fn rsync_uri_case<const N: usize, const M: usize>(tail: &[u8; N], mask: u8)
+    -> [u8; M] {
+    let mut buf = rsync_uri::<N, M>(tail);
+    if mask & 1 != 0 { buf[0] = b'R'; }
+    if mask & 2 != 0 { buf[1] = b'S'; }
+    if mask & 4 != 0 { buf[2] = b'Y'; }
+    if mask & 8 != 0 { buf[3] = b'N'; }
+    if mask & 16 != 0 { buf[4] = b'C'; }
+    buf
+}
+
 //------------ (P) parsing ----------------------------------------------------------
 
 fn rsync_parse_body<const N: usize, const M: usize>() {
@@ -310,7 +323,9 @@ fn any_valid_rsync<const N: usize, const M: usize>()
     let want = ref_rsync_tail(&tail);
     kani::assume(want.is_some());
     let (a, m) = want.unwrap();
-    let buf: &'static [u8; M] = Box::leak(Box::new(rsync_uri::<N, M>(&tail)));
+    let mask: u8 = kani::any();
+    let buf: &'static [u8; M] =
+        Box::leak(Box::new(rsync_uri_case::<N, M>(&tail, mask)));
     let u = Rsync::verif_from_parts(
         bytes::Bytes::from_static(buf), 9 + a, 9 + a + m + 1);
     (u, buf, a, m)
